@@ -2,7 +2,7 @@ import GoUefi.Base
 import GoUefi.Model.Guid
 /-
   Impl model of efi/signature/signature_list.go and signature_database.go as they stand after the
-  fix: commits recorded in known_findings.json (F6, F7, F8, F9a-d).
+  fix: commits recorded in known_findings.json (F6, F7, F8, F9a-d, F27, F37).
   Types and owners are kept as the 16 wire bytes.
 -/
 namespace GoUefi.Impl
@@ -153,15 +153,17 @@ def Db.has (db : Db) (t o d : Bytes) : Bool := db.any fun l => l.type == t && l.
 def Db.hasAll (db : Db) (t : Bytes) (sigs : List SData) : Bool :=
   sigs.all fun s => db.has t s.owner s.data
 
-inductive AErr | noScheme | exists | notSha256 | sizeMismatch
+inductive AErr | noScheme | exists | notSha256 | notExternal | sizeMismatch
 deriving DecidableEq, Repr
 
 /-- list-level `AppendBytes` (F27 repair: PEM is decoded before the duplicate check, so that the DER
-    form is what is compared and stored) -/
+    form is what is compared and stored; F37 repair: an externally-managed entry is one byte, the only
+    size `ReadSignatureList` accepts for that type) -/
 def SList.appendBytes (E : Env) (l : SList) (o d : Bytes) : Except AErr SList :=
   let d' := E.norm l.type d
   if l.has o d' then .error .exists else
   if l.type = guidSha256 ∧ d'.length ≠ 32 then .error .notSha256 else
+  if l.type = guidExternal ∧ d'.length ≠ 1 then .error .notExternal else
   if l.sigs ≠ [] ∧ d'.length + 16 ≠ l.size then .error .sizeMismatch else
   .ok { l with sigs := l.sigs ++ [⟨o, d'⟩], size := d'.length + 16, listSize := l.listSize + (d'.length + 16) }
 
